@@ -57,7 +57,7 @@ static hc::Outcome run_one(hc::RunSpec& rs) {
     hc::Rng r(rs.seed ^ 0x75A0ULL);
     c.set("P", 1);
     int model; { int x = r.below(100); model = x < 35 ? models::ATOM : x < 70 ? models::DIMER : x < 80 ? models::KANAMORI : x < 90 ? models::ATOM_FIELD : models::EXCH2; }
-    c.def("model", model); model = (int)c.i("model") % models::N_MODELS; if (model < 0 || models::is_big(model)) model = 0; c.set("model", model);
+    c.def("model", model); model = (int)c.i("model") % models::N_MODELS; if (model < 0 || models::is_big(model) || model == models::ATOMS3) model = 0; c.set("model", model);
     c.def("mp", r.pct(15) ? 0 : r.range(1, 100000));
     c.def("nosym", r.pct(15));
     c.def("beta", r.pick(std::vector<int>{1, 2, 5, 10, 20}));
